@@ -401,6 +401,9 @@ func strShape(m *Module, v ssa.Value, depth int) []strComp {
 				out = append(out, strComp{Lit: format[pos:]})
 			}
 			return out
+		case "strconv.Itoa", "strconv.FormatInt", "strconv.FormatUint":
+			// decimal rendering of an integer (any other base is still digits/letters without separators)
+			return []strComp{{Var: x.Call.Args[0], Num: true}}
 		case "path.Join":
 			elems, ok := variadicElems(x.Call.Args[0])
 			if !ok {
@@ -934,10 +937,40 @@ func sameSource(a, b ssa.Value) bool {
 	if ok1 && ok2 && ua.Op == token.MUL && ub.Op == token.MUL && ua.X == ub.X {
 		// no store to the address in between is possible for a FreeVar/Parameter cell that is never
 		// re-assigned in this function
+		// … or for a local cell written once, before both reads, and never again (a parameter
+		// spilled because a closure captures it): the one store dominates both loads and cannot
+		// run again after them; a closure the cell is bound into does not write it.
 		if ua.X.Referrers() != nil {
 			for _, ref := range *ua.X.Referrers() {
-				if st, ok := ref.(*ssa.Store); ok && st.Addr == ua.X {
-					return false
+				switch x := ref.(type) {
+				case *ssa.Store:
+					if x.Addr != ua.X {
+						continue
+					}
+					after := blocksAfter(ua.Block())
+					for b := range blocksAfter(ub.Block()) {
+						after[b] = true
+					}
+					if !instrDominates(x, ua) || !instrDominates(x, ub) || after[x.Block()] {
+						return false
+					}
+				case *ssa.MakeClosure:
+					f, _ := x.Fn.(*ssa.Function)
+					for i, bnd := range x.Bindings {
+						if bnd != ua.X || f == nil || i >= len(f.FreeVars) {
+							continue
+						}
+						if refs := f.FreeVars[i].Referrers(); refs != nil {
+							for _, r2 := range *refs {
+								if st, ok := r2.(*ssa.Store); ok && st.Addr == ssa.Value(f.FreeVars[i]) {
+									return false
+								}
+								if _, ok := r2.(*ssa.MakeClosure); ok {
+									return false
+								}
+							}
+						}
+					}
 				}
 			}
 		}
